@@ -104,17 +104,28 @@ def run(ctx):
             server = (HOSTS[i["server"][0]].strip("[]"), int(i["server"][1]))
             req = servers.Req(path=path, root_path=root, query=query, scheme=i["scheme"], server=server,
                               headers=[("Host", hh)] if hh else [])
-            exp_host = hh if hh else HOSTS[i["server"][0]].strip("[]") + ("" if st["out"]["port"] == NONE else ":" + st["out"]["port"])
+            exp_host = hh if hh else HOSTS[i["server"][0]] + ("" if st["out"]["port"] == NONE else ":" + st["out"]["port"])   # IPv6 in brackets
             want = "%s://%s%s%s" % (i["scheme"], exp_host, root + path, ("?" + query) if query else "")
             env, scope = servers.make_environ(req), servers.make_scope(req)
-            got = {}
+            got, comps = {}, {}
             for name, f in (("URL(environ)", lambda: URL(environ=env)), ("URL(scope)", lambda: URL(scope=scope)),
                             ("wsgi.Request.url", lambda: W.Request(env).url), ("asgi.Request.url", lambda: A.Request(scope).url)):
                 try:
-                    got[name] = str(f())
+                    u = f()
+                    got[name] = str(u)
+                    comps[name] = (u.hostname, u.port)
                 except BaseException as e:  # noqa
                     got[name] = "exc:" + type(e).__name__
             case = {"scheme": i["scheme"], "server": list(server), "host_header": hh, "root": root, "path": path, "query": query}
+            # the components, not only the text: host and port as a URL parser reads them back
+            if hh:
+                hname, _, hport = hh.rpartition(":") if (":" in hh and not hh.endswith("]")) else (hh, "", "")
+                want_comp = (hname.strip("[]").lower(), int(hport) if hport else None)
+            else:
+                want_comp = (server[0].lower(), None if st["out"]["port"] == NONE else int(st["out"]["port"]))
+            if any(c != want_comp for c in comps.values()):
+                ctx.violation(case, {"hostname": want_comp[0], "port": want_comp[1]}, {k: list(v) for k, v in comps.items()},
+                              "host / port of the request URL are not those of the request")
             if any(v != want for v in got.values()):
                 ctx.violation(case, want, got, "request URL is not reconstructed from its parts" if len(set(got.values())) == 1
                               else "WSGI and ASGI reconstruct different URLs")
